@@ -4,6 +4,7 @@ import (
 	"encoding/json"
 	"errors"
 	"fmt"
+	"math"
 	"reflect"
 )
 
@@ -95,6 +96,10 @@ func (in *objIndex) UnmarshalJSON(data []byte) error {
 		if fi == nil {
 			return fmt.Errorf("%w: null index for field %s", ErrMalformedIndex, fn)
 		}
+		// values are fetched from the objects with the name of the index
+		if fi.Name != fn {
+			return fmt.Errorf("%w: index of field %s is named %s", ErrMalformedIndex, fn, fi.Name)
+		}
 	}
 	if tmp.Fields == nil {
 		tmp.Fields = make(map[string]*fieldIndex)
@@ -112,6 +117,13 @@ func (in *objIndex) UnmarshalJSON(data []byte) error {
 	for i, uuid := range in.ObjectIds {
 		if i > in.i {
 			in.i = i
+		}
+		// the next id would be 0 again
+		if i == math.MaxUint64 {
+			return fmt.Errorf("%w: object id %d is out of range", ErrMalformedIndex, i)
+		}
+		if other, ok := in.uuids[uuid]; ok {
+			return fmt.Errorf("%w: object ids %d and %d are those of the same object %s", ErrMalformedIndex, other, i, uuid)
 		}
 		in.uuids[uuid] = i
 	}
